@@ -6,6 +6,7 @@
  * Concrete operation list OPS (message values symbolic and pairwise distinct):
  *   1 try_put(v)      2 / 3 run the oldest / newest spawned task     10+s successor s pulls with try_get     20+s successor s pulls with try_reserve
  *   30 the reserving successor releases   31 ... consumes            40+s successor s is removed by remove_successor (from push mode)
+ *   50+s successor s (removed or, with NSUCC < 3, never registered) is registered, possibly while messages are buffered
  * Oracle: nothing is pushed along an edge that is in pull mode or removed; broadcast_node: every put is offered exactly once to every
  * push-mode successor, in registration order, and to nobody else; queue_node: every delivery (accepted offer, successful try_get,
  * consumed reservation) is the oldest undelivered message (=> each message delivered exactly once, to exactly one successor, FIFO),
@@ -41,12 +42,13 @@ static unsigned last_rejected;                    /* successor whose offer was j
 static void order_remove(unsigned s) { unsigned j = 0; for (unsigned i = 0; i < 3; i++) if (i < norder && order[i] != s) order[j++] = order[i]; norder = j; }
 static void delivered(int v) {
   VP_ASSERT(n > 0, "a message was handed out although nothing is buffered (duplicated)");
+  if (n == 0) return;   /* (keep the harness state sane after a reported violation) */
   VP_ASSERT(m[0] == v, "handed-out message is not the oldest undelivered one (lost / duplicated / reordered / payload changed)");
   for (unsigned i = 0; i + 1 < MAXM; i++) m[i] = m[i + 1];
   n--; ndelivered++; frontseq++;
 }
 u32 vp_sink(u32 id, u32 v) {
-  VP_ASSERT(id < NSUCC, "offer to an unknown successor");
+  VP_ASSERT(id < 3, "offer to an unknown successor");
   VP_ASSERT(mode[id] == M_PUSH, "message pushed along an edge that is in pull mode / was removed");
   last_rejected = 0;
   unsigned acc = (acc_bits >> noffer) & 1; noffer++;
@@ -95,7 +97,7 @@ static void quiescent(void) {   /* no task pending */
 #if EK != 0
   VP_ASSERT(vp_fwd_busy() == 0, "forwarder_busy left set with no forwarder task alive (the node would never forward again)");
   if (n > 0 && !reserved && !stale)
-    for (unsigned s = 0; s < NSUCC; s++) if (mode[s] == M_PUSH)
+    for (unsigned s = 0; s < 3; s++) if (mode[s] == M_PUSH)
       VP_ASSERT(offered_front[s] == frontseq + 1, "buffered front message never offered to a push-mode successor (stuck message / lost hand-off)");
 #endif
 }
@@ -105,7 +107,7 @@ static void quiescent(void) {   /* no task pending */
 static void run(unsigned accpat, unsigned flippat) {
   fg_reset(); n = 0; nput = ndelivered = noffer = 0; acc_bits = accpat; flip_bits = flippat; reserved = 0; frontseq = 0; stale = 0; in_put = 0; last_rejected = 0;
   norder = 0; for (unsigned s = 0; s < 3; s++) { mode[s] = s < NSUCC ? M_PUSH : M_REMOVED; if (s < NSUCC) order[norder++] = s; offered_front[s] = 0; }
-  vp_init(NSUCC);
+  vp_init(NSUCC); vp_init_extra_succ(NSUCC);
   for (int i = 0; i < BAGRUNS; i++) run_one(0);   /* forwarders spawned by the registrations */
   settled();
   for (int k = 0; k < NOPS; k++) {
@@ -146,6 +148,7 @@ static void run(unsigned accpat, unsigned flippat) {
     else if (op == 30) { if (!reserved) continue; vp_release(); reserved = 0; stale = 0; }
     else if (op == 31) { if (!reserved) continue; vp_consume(); reserved = 0; delivered(res_val); stale = 0; }
     else if (op >= 40 && op < 43) { unsigned s = op - 40; if (mode[s] != M_PUSH) continue; vp_remove_succ(s); mode[s] = M_REMOVED; order_remove(s); }
+    else if (op >= 50 && op < 53) { unsigned s = op - 50; if (mode[s] != M_REMOVED) continue; give_back(s); }   /* (late) registration, possibly while messages are buffered */
     settled();
     if (bag_n == 0) quiescent();
   }
